@@ -1847,6 +1847,19 @@ pub fn check_c03(p: &Prob, st: &Sets, r: &SolveResp) -> Result<(), String> {
     let dp = 1f64.max(u.normb + u.normx + u.norms);
     let dd = 1f64.max(u.normq + u.normx + u.normz);
     let (rp, rd) = (o.f("r_prim"), o.f("r_dual"));
+    if !matches!(r.status, Solved | AlmostSolved) {
+        // mirror image of the overflow artefact: the homogeneous iterate of a run that already
+        // reports failure has collapsed (τ ~ 1e-218 observed after 200 iterations on an
+        // inconsistent problem), every entry of the internal residual is ~τ and its SQUARE
+        // underflows to 0 inside norm_scaled, so r_prim = r_dual = 0 is reported for a point
+        // with an O(1) residual.  Exempt only when the internal magnitudes really are in the
+        // underflow range (findings/C03-rprim-underflow).
+        let vmax = r.x.iter().chain(&r.s).chain(&r.z).fold(0.0f64, |a, v| a.max(v.abs()));
+        let tau = o.f("tau").abs();
+        if tau * vmax.max(1.0) < 1e-150 {
+            return Ok(());
+        }
+    }
     if (!rp.is_finite() || !rd.is_finite()) && !matches!(r.status, Solved | AlmostSolved) {
         // after a breakdown the internal residual can exceed 1e154 and its squared norm
         // overflows to inf inside the solver: an overflow artefact of a run that already
@@ -2395,4 +2408,37 @@ pub fn submit_history(s: &mut Session, h: &History, st: &Sets, check: &str) -> S
         }
     }
     out
+}
+
+// =====================================================================================
+// part 5 (C03 round 3, add-only): exports for report-specific channels that live in the
+//         property's own binary (`c03.rs`: `report`, `info.reset`).  Thin call-throughs; no
+//         existing item is changed.
+// =====================================================================================
+
+/// `render_solve` (the canonical text of one solve report; keys suffixed `sfx`)
+pub fn render_solve_sfx(o: &SolveOut, sfx: &str) -> String {
+    render_solve(o, sfx)
+}
+/// the shared property oracles (`check_c01` / `check_c02` / `check_c03`, selected by `which`) on
+/// the report with key suffix `sfx` inside `out`
+pub fn check_report_text(which: &str, p: &Prob, st: &Sets, out: &str, sfx: &str) -> Result<(), String> {
+    let resp = parse_solve_sfx(out, sfx).ok_or("unparsable report")?;
+    check_report(which, p, st, &resp)
+}
+/// `info_of` / `fmt_info`: the 15 scalars + iterations + status encoding of `DefaultInfo`
+pub fn info_from_req(r: &Req) -> DefaultInfo<f64> {
+    info_of(r)
+}
+pub fn info_to_text(i: &DefaultInfo<f64>) -> String {
+    fmt_info(i)
+}
+pub fn info_line(l: Line, a: &[f64], iterations: usize, status: usize) -> Line {
+    put_info(l, a, iterations, status)
+}
+pub fn status_index(s: SolverStatus) -> usize {
+    status_to_u(s)
+}
+pub fn status_from_index(u: usize) -> SolverStatus {
+    status_of_u(u)
 }
